@@ -63,7 +63,7 @@ use std::hash::Hash;
 /// assert_eq!(Grid::try_from(&grid).unwrap().len(), 2);
 /// ```
 ///
-#[derive(PartialOrd, Eq, Ord, Clone, Debug, Default)]
+#[derive(Eq, Ord, Clone, Debug, Default)]
 pub enum Value {
     /// No value
     #[default]
@@ -412,6 +412,14 @@ impl Hash for Value {
             Value::Dict(val) => val.hash(state),
             Value::Grid(val) => val.hash(state),
         }
+    }
+}
+
+/// The partial order of a [Value](crate::val::Value) is its total order, as sorting and the ordered
+/// collections require. (A derived implementation would give no answer for numbers with different units.)
+impl PartialOrd for Value {
+    fn partial_cmp(&self, other: &Self) -> Option<std::cmp::Ordering> {
+        Some(self.cmp(other))
     }
 }
 
